@@ -473,6 +473,7 @@ struct GenCfg
 	bool allowIntKeys = false;
 	bool allowBin = true;
 	bool forceContainerRoot = false;
+	bool binAsArray = false;            // MsgPack: 1 byte container in 4 is stored as a plain array of integers
 	bool simpleFloats = false;          // KF-JSON-DOUBLE-PRECISION: doubles that RapidJSON's fast parser reads exactly
 	uint32_t kindMask = 0xFFFFFFFFu;   // swarm: enabled kinds
 };
@@ -515,6 +516,21 @@ inline std::string GenKeyName(Source& s, Lane l, int archive, size_t index)
 	return k;
 }
 
+// Calendar corners (seconds since 1970): leap days, the days around them, century years that are (2000) and are not (1900, 2100)
+// leap years, year ends; `wide` adds the leap days of 1600 and 2400 (outside the range of a nanosecond system_clock)
+inline int64_t CalendarCorner(Source& s, Lane l, bool wide)
+{
+	static const int64_t days[] = {
+		951782400ll /*2000-02-29*/, 951696000ll /*2000-02-28*/, 951868800ll /*2000-03-01*/, 68169600ll /*1972-02-29*/, 1709164800ll /*2024-02-29*/,
+		-58060800ll /*1968-02-29*/, -2203891200ll /*1900-03-01*/, -2203977600ll /*1900-02-28*/, 4107542400ll /*2100-03-01*/, 4107456000ll /*2100-02-28*/,
+		946598400ll /*1999-12-31*/, 946684800ll /*2000-01-01*/, -86400ll /*1969-12-31*/, 978220800ll /*2000-12-31*/,
+		13574563200ll /*2400-02-29*/, -11670998400ll /*1600-02-29*/ };
+	const uint32_t n = static_cast<uint32_t>(sizeof(days) / sizeof(days[0])) - (wide ? 0 : 2);
+	const int64_t day = days[s.draw(l, n)];
+	static const int64_t inDay[] = { 0, 1, 43200, 45296, 86399 };
+	return day + s.pick(l, inDay);
+}
+
 inline void GenScalar(Source& s, Lane l, DynNode& n, const GenCfg& g)
 {
 	const TextProfile tp = ProfileFor(g.archive);
@@ -544,13 +560,14 @@ inline void GenScalar(Source& s, Lane l, DynNode& n, const GenCfg& g)
 		static const int64_t bases[] = { 0, 1, -1, 1700000000ll, -1700000000ll, 4294967295ll, 4294967296ll, 17179869183ll, 17179869184ll, -7000000000ll, 7000000000ll };
 		int64_t secs = s.pick(l, bases) + s.range(l, -3, 3);
 		if (s.chance(l, 1, 3)) secs = GenSigned(s, l, 33);
+		else if (s.chance(l, 1, 4)) secs = CalendarCorner(s, l, false);
 		const int64_t sub = s.chance(l, 1, 2) ? 0 : static_cast<int64_t>(s.draw(l, 1000000000));
 		if (secs > 7800000000ll) secs = 7800000000ll;
 		if (secs < -7800000000ll) secs = -7800000000ll;
 		n.tp = std::chrono::system_clock::time_point(std::chrono::duration_cast<std::chrono::system_clock::duration>(std::chrono::seconds(secs) + std::chrono::nanoseconds(sub)));
 		break;
 	}
-	case K::Bin: { uint32_t len = GenLength(s, l, g.maxStr); if (len == 0 && !g.allowEmptyContainers) len = 1; n.bin.resize(len); for (auto& b : n.bin) b = static_cast<unsigned char>(s.draw(l, 256)); break; }
+	case K::Bin: { uint32_t len = GenLength(s, l, g.maxStr); if (len == 0 && !g.allowEmptyContainers) len = 1; n.bin.resize(len); for (auto& b : n.bin) b = static_cast<unsigned char>(s.draw(l, 256)); if (g.binAsArray && g.archive == A_MSGPACK && s.chance(l, 1, 4)) n.binAsArray = true; break; }
 	default: break;
 	}
 }
